@@ -858,6 +858,7 @@ type retOutcome struct {
 	Conds     []string        // normalised controlling predicates
 	Vals      []ssa.Value     // result values (phi-resolved for the error result)
 	ErrTerm   string          // rendered error result value
+	NonNil    bool            // error result is certainly non-nil
 }
 
 // sentinelsOf collects error globals (pkg.ErrX) that flow into v, "nil" for the nil constant,
@@ -935,6 +936,112 @@ func sentinelsOf(v ssa.Value) []string {
 	return out
 }
 
+// alwaysNonNil: the error value is certainly non-nil (fmt.Errorf / errors.New result, or a sentinel global).
+func alwaysNonNil(v ssa.Value) bool {
+	switch v := v.(type) {
+	case *ssa.Call:
+		switch calleeName(v) {
+		case "fmt.Errorf", "errors.New":
+			return true
+		}
+	case *ssa.UnOp:
+		if _, ok := v.X.(*ssa.Global); ok {
+			return true
+		}
+	case *ssa.MakeInterface:
+		return true
+	case *ssa.ChangeInterface:
+		return alwaysNonNil(v.X)
+	case *ssa.Phi:
+		for _, e := range v.Edges {
+			if !alwaysNonNil(e) {
+				return false
+			}
+		}
+		return len(v.Edges) > 0
+	}
+	return false
+}
+
+// strip removes value-preserving conversions.
+func strip(v ssa.Value) ssa.Value {
+	for {
+		switch x := v.(type) {
+		case *ssa.ChangeType:
+			v = x.X
+		case *ssa.ChangeInterface:
+			v = x.X
+		case *ssa.MakeInterface:
+			v = x.X
+		default:
+			return v
+		}
+	}
+}
+
+// sameValue: a and b are the same SSA value up to value-preserving conversions.
+func sameValue(a, b ssa.Value) bool {
+	a, b = strip(a), strip(b)
+	if a == b {
+		return true
+	}
+	// two loads of the same location that is never stored to in this function (go/ssa does no CSE)
+	la, ok1 := a.(*ssa.UnOp)
+	lb, ok2 := b.(*ssa.UnOp)
+	if ok1 && ok2 && la.Op == token.MUL && lb.Op == token.MUL && sameLoc(la.X, lb.X) && !storedTo(la.Parent(), la.X) {
+		return true
+	}
+	// two field reads of the same struct value
+	fa, ok1 := a.(*ssa.Field)
+	fb, ok2 := b.(*ssa.Field)
+	if ok1 && ok2 && fa.Field == fb.Field && sameValue(fa.X, fb.X) {
+		return true
+	}
+	// identical constants
+	ca, ok1 := a.(*ssa.Const)
+	cb, ok2 := b.(*ssa.Const)
+	if ok1 && ok2 && ca.Value != nil && cb.Value != nil && ca.Value.ExactString() == cb.Value.ExactString() {
+		return true
+	}
+	return false
+}
+
+// sameLoc: two address values denote the same memory location.
+func sameLoc(a, b ssa.Value) bool {
+	if a == b {
+		return true
+	}
+	switch x := a.(type) {
+	case *ssa.FieldAddr:
+		y, ok := b.(*ssa.FieldAddr)
+		return ok && x.Field == y.Field && (x.X == y.X || sameValue(x.X, y.X))
+	}
+	return false
+}
+
+// storedTo: fn contains a store whose address is the same location as loc.
+func storedTo(fn *ssa.Function, loc ssa.Value) bool {
+	found := false
+	eachInstr(fn, func(i ssa.Instruction) {
+		if st, ok := i.(*ssa.Store); ok && sameLocShallow(st.Addr, loc) {
+			found = true
+		}
+	})
+	return found
+}
+
+func sameLocShallow(a, b ssa.Value) bool {
+	if a == b {
+		return true
+	}
+	x, ok1 := a.(*ssa.FieldAddr)
+	y, ok2 := b.(*ssa.FieldAddr)
+	if ok1 && ok2 && x.Field == y.Field {
+		return x.X == y.X || term(x.X) == term(y.X)
+	}
+	return false
+}
+
 func isIfaceHoldingError(v ssa.Value) bool {
 	if mi, ok := v.(*ssa.MakeInterface); ok {
 		return isErrorType(mi.X.Type())
@@ -1006,11 +1113,11 @@ func returnOutcomes(fn *ssa.Function) []retOutcome {
 				}
 				vals := append([]ssa.Value{}, ret.Results...)
 				vals[errIdx] = e
-				out = append(out, retOutcome{Ret: ret, Pred: pred, Sentinels: sentinelsOf(e), Conds: condStrings(ctrlCondsEdge(pred, si)), Vals: vals, ErrTerm: term(e)})
+				out = append(out, retOutcome{Ret: ret, Pred: pred, Sentinels: sentinelsOf(e), Conds: condStrings(ctrlCondsEdge(pred, si)), Vals: vals, ErrTerm: term(e), NonNil: alwaysNonNil(e)})
 			}
 			continue
 		}
-		out = append(out, retOutcome{Ret: ret, Sentinels: sentinelsOf(ev), Conds: condStrings(ctrlConds(b)), Vals: ret.Results, ErrTerm: term(ev)})
+		out = append(out, retOutcome{Ret: ret, Sentinels: sentinelsOf(ev), Conds: condStrings(ctrlConds(b)), Vals: ret.Results, ErrTerm: term(ev), NonNil: alwaysNonNil(ev)})
 	}
 	return out
 }
